@@ -508,8 +508,13 @@ xds_decoder(vbi_decoder *vbi, int _class, int type,
 				   deviating name or call sign packet would reset
 				   the decoder and the cache. */
 				if (sum != n->nuid) {
-					if (n->nuid != 0)
+					if (n->nuid != 0) {
+						/* Resets this decoder too, see
+						   vbi_caption_channel_switched(). */
+						pthread_mutex_unlock(&vbi->cc.mutex);
 						vbi_chsw_reset(vbi, sum);
+						pthread_mutex_lock(&vbi->cc.mutex);
+					}
 
 					n->nuid = sum;
 
@@ -1534,6 +1539,9 @@ vbi_caption_channel_switched(vbi_decoder *vbi)
 	cc_channel *ch;
 	int i;
 
+	/* Another thread may be in vbi_fetch_cc_page(). */
+	pthread_mutex_lock(&cc->mutex);
+
 	for (i = 0; i < 9; i++) {
 		ch = &cc->channel[i];
 
@@ -1577,6 +1585,8 @@ vbi_caption_channel_switched(vbi_decoder *vbi)
 	cc->info_cycle[1] = 0;
 
 	vbi_caption_desync(vbi);
+
+	pthread_mutex_unlock(&cc->mutex);
 }
 
 static vbi_rgba
